@@ -25,13 +25,9 @@ func (e *Engine) sortedFuncs() []*ssa.Function {
 	return out
 }
 
+// isInitFn: the package initialiser itself (closures created by it run later and are not exempt).
 func isInitFn(fn *ssa.Function) bool {
-	for f := fn; f != nil; f = f.Parent() {
-		if f.Name() == "init" && f.Signature.Recv() == nil {
-			return true
-		}
-	}
-	return false
+	return fn.Parent() == nil && fn.Signature.Recv() == nil && (fn.Name() == "init" || strings.HasPrefix(fn.Name(), "init#"))
 }
 
 // globalRoot: the package-level variable an address or value derives from (through field/index
